@@ -46,6 +46,9 @@ pub struct VarDesc {
     pub fields:   Vec<(usize, usize)>,
     /// "r", "w" or "rw"
     pub access:   String,
+    /// how a read value is consumed (0: kept in memory, 1: left on the stack) and how shift
+    /// amounts are written (bit 1 set: computed as byteOffset * 8 instead of a literal)
+    pub style:    usize,
 }
 
 impl VarDesc {
@@ -58,6 +61,7 @@ impl VarDesc {
             "val_addr": self.val_addr,
             "fields": self.fields.iter().map(|(o, w)| json!([o, w])).collect::<Vec<_>>(),
             "access": self.access,
+            "style": self.style,
         })
     }
 
@@ -83,6 +87,7 @@ impl VarDesc {
                 .map(|a| a.iter().map(|f| (f[0].as_u64().unwrap() as usize, f[1].as_u64().unwrap() as usize)).collect())
                 .unwrap_or_default(),
             access: v["access"].as_str().unwrap_or("rw").to_string(),
+            style: v["style"].as_u64().unwrap_or(0) as usize,
         })
     }
 }
@@ -123,8 +128,21 @@ fn calldata(at: u8) -> Vec<Item> {
     vec![p1(at), Item::Op(CALLDATALOAD)]
 }
 
-fn keep_in_memory() -> Vec<Item> {
-    vec![p1(0x60), Item::Op(MSTORE)]
+fn keep(style: usize) -> Vec<Item> {
+    if style & 1 == 0 {
+        vec![p1(0x60), Item::Op(MSTORE)]
+    } else {
+        vec![] // the branch ends with the value still on the stack
+    }
+}
+
+fn shift_by(off: usize, style: usize, op: u8) -> Vec<Item> {
+    if style & 2 == 0 || off % 8 != 0 {
+        vec![p1(off as u8), Item::Op(op)]
+    } else {
+        // byteOffset * 8, computed
+        vec![p1((off / 8) as u8), p1(8), Item::Op(0x02), Item::Op(op)]
+    }
 }
 
 /// Code that leaves the storage key of `v` on the stack.
@@ -157,10 +175,10 @@ fn read_code(v: &VarDesc) -> Vec<Vec<Item>> {
             for (off, w) in &v.fields {
                 let mut c = vec![push_word(&v.slot, v.width), Item::Op(SLOAD)];
                 if *off > 0 {
-                    c.extend([p1(*off as u8), Item::Op(SHR)]);
+                    c.extend(shift_by(*off, v.style, SHR));
                 }
                 c.extend([push_word(&mask_bits(*w), 0), Item::Op(AND)]);
-                c.extend(keep_in_memory());
+                c.extend(keep(v.style));
                 out.push(c);
             }
         }
@@ -169,14 +187,14 @@ fn read_code(v: &VarDesc) -> Vec<Vec<Item>> {
             if v.kind == Kind::Dyn {
                 // the length lives at the slot itself
                 c.extend([push_word(&v.slot, v.width), Item::Op(SLOAD)]);
-                c.extend(keep_in_memory());
+                c.extend(keep(0));
             }
             c.extend(key_code(v));
             c.push(Item::Op(SLOAD));
             if v.kind == Kind::Addr || v.val_addr {
                 c.extend(addr_mask());
             }
-            c.extend(keep_in_memory());
+            c.extend(keep(v.style));
             out.push(c);
         }
     }
@@ -193,7 +211,7 @@ fn write_code(v: &VarDesc) -> Vec<Vec<Item>> {
                 c.extend(calldata(4));
                 c.extend([push_word(&mask_bits(*w), 0), Item::Op(AND)]);
                 if *off > 0 {
-                    c.extend([p1(*off as u8), Item::Op(SHL)]);
+                    c.extend(shift_by(*off, v.style, SHL));
                 }
                 c.push(Item::Op(OR));
                 c.extend([push_word(&v.slot, v.width), Item::Op(SSTORE)]);
@@ -316,6 +334,7 @@ pub fn random_var(rng: &mut StdRng, used: &mut Vec<[u8; 32]>) -> VarDesc {
         val_addr: matches!(kind, Kind::Map | Kind::Dyn) && rng.gen_bool(0.4),
         fields: if kind == Kind::Packed { random_fields(rng) } else { vec![] },
         access: (*["r", "w", "rw", "rw"].choose(rng).unwrap()).to_string(),
+        style: rng.gen_range(0..4),
         kind,
     }
 }
